@@ -52,7 +52,7 @@ func runC04(c *Ctx) {
 	parms, _ := c.prefixDispatch()
 	c04Context(c)
 	c04Wiring(c, barms, parms)
-	c04NoFloat(c, barms)
+	c04NoFloat(c, barms, "C04.no-binary-float")
 }
 
 func c04Context(c *Ctx) {
@@ -238,8 +238,7 @@ func isFloatType(t types.Type) bool {
 	return ok && b.Info()&types.IsFloat != 0
 }
 
-func c04NoFloat(c *Ctx, barms map[int64]OpArm) {
-	const rule = "C04.no-binary-float"
+func c04NoFloat(c *Ctx, barms map[int64]OpArm, rule string) {
 	d := c.EvalDispatcher()
 	set := map[*ssa.Function]string{}
 	// the normaliser: callee of the dispatcher's success return
@@ -320,6 +319,26 @@ func c04NoFloat(c *Ctx, barms map[int64]OpArm) {
 			r := c.foldWith(f, 0, pinTypeCase(v, k))
 			good := false
 			why := "no SetString call on this path"
+			// the conversion may live in a helper that takes the float: analyse the helper for its parameter
+			src := v
+			var viaHelper *ssa.Call
+			for _, call := range r.ReachableCalls() {
+				cc, ok := call.(*ssa.Call)
+				if !ok {
+					continue
+				}
+				g := calleeOf(cc)
+				if g == nil || !c.inModule(g) || len(g.Params) != 1 || !isFloatType(g.Params[0].Type()) || len(cc.Call.Args) != 1 || !c.derivedFrom(cc.Call.Args[0], v) {
+					continue
+				}
+				viaHelper = cc
+			}
+			if viaHelper != nil {
+				g := calleeOf(viaHelper)
+				r = c.foldWith(g, 0)
+				src = g.Params[0]
+			}
+			v := src
 			for _, call := range r.ReachableCalls() {
 				cc, ok := call.(*ssa.Call)
 				if !ok {
@@ -350,6 +369,15 @@ func c04NoFloat(c *Ctx, barms map[int64]OpArm) {
 				isSet := func(in ssa.Instruction) bool {
 					cc, ok := in.(*ssa.Call)
 					return ok && calleeOf(cc) != nil && calleeOf(cc).String() == "(*"+decimalPath+".Big).SetString"
+				}
+				if viaHelper != nil {
+					// ... and the normaliser reaches the helper on every path of this kind
+					rf := c.foldWith(f, 0, pinTypeCase(f.Params[0], k))
+					isHelper := func(in ssa.Instruction) bool { return in == ssa.Instruction(viaHelper) }
+					if pathExistsIn(rf, nil, isReturn, isHelper) {
+						good = false
+						why = "some path returns without calling the float conversion helper"
+					}
 				}
 				if pathExistsIn(r, nil, isReturn, isSet) {
 					good = false
